@@ -171,7 +171,7 @@ Recreate(h) ==
      /\ cfg' = c1 /\ cfgVerF' = 1 /\ js' = s1 /\ jsVerF' = 1
      /\ Advance(h, [hd[h] EXCEPT !.loaded = TRUE, !.cfg = c1, !.wcfg = c1, !.js = s1, !.role = TRUE, !.gen = Gen + 1])
      /\ Release
-     /\ Feed(<<"Recreate", h>>, <<[EvCop(h, "recreate", "", TRUE, TRUE, TRUE, TRUE) EXCEPT !.loaded = FALSE, !.before = None,
+     /\ Feed(<<"Recreate", h>>, <<[e |-> "recreated", pid |-> h], [EvCop(h, "recreate", "", TRUE, TRUE, TRUE, TRUE) EXCEPT !.loaded = FALSE, !.before = None,
                                                                                           !.hcver = 0, !.hjver = 0]>>)
 
 \* a cfg-only operation on an existing handle: promote_to_submitter / demote_from_submitter / mark_canceled / mark_complete
